@@ -1,7 +1,7 @@
 (* C04 - amino-acid annotation equals translation of the affected codon before and after.
    Only statements, closed by `exact`, and their assumptions. *)
 From VV Require Import Model.Base Model.Pattern Model.Seq Model.CodonTable Model.Transcript Model.Mutators
-  Spec.CodonSpec Proofs.CodonProofs Proofs.AnnotProofs.
+  Spec.CodonSpec Proofs.CodonProofs Proofs.AnnotProofs Proofs.AnnotWalkProofs.
 
 (* SNV rows: the annotated codon is the triplet of the extended coding sequence (prefix + region + suffix) that
    holds the mutated base, ref_aa / alt_aa are its translations before and after the substitution *)
@@ -31,6 +31,29 @@ Theorem C04_ext_positions_are_codon_walk : forall t q e r c i,
   (exists pre post, cds_walk (t_exons t) = pre ++ (c_prefix_pos c ++ positions r ++ c_suffix_pos c) ++ post) /\
   seq_get_at q (c_prefix_pos c) = Ok (c_prefix c) /\ substr q r = Ok (c_bases c) /\ seq_get_at q (c_suffix_pos c) = Ok (c_suffix c).
 Proof. exact ext_positions_are_codon_walk. Qed.
+
+(* the extended coding sequence is exactly the sequence read at prefix positions ++ region ++ suffix positions, a whole
+   number of codons *)
+Theorem C04_ext_is_walk_bases : forall t q e r c,
+  get_cds_seq_exon t q e r = Ok c -> 0 <= rs r <= re r -> s_start q <= rs r -> re r - s_start q + 1 <= s_len q ->
+  seq_get_at q (walk_segment c r) = Ok (c_ext c) /\ zlen (c_prefix_pos c) = zlen (c_prefix c) /\
+  zlen (c_suffix_pos c) = zlen (c_suffix c) /\ c_len c = rlen r /\ c_start c = rs r /\ c_ext_length c mod 3 = 0.
+Proof. exact ext_is_walk_bases. Qed.
+
+(* end to end for an SNV row: the annotated codon is read from three consecutive positions of that walk segment (which
+   C04_ext_positions_are_codon_walk places in the walk over all coding positions), the mutated position is among them
+   at the recorded offset, ref_aa / alt_aa are the translations of the codon before and after the substitution *)
+Theorem C04_annot_is_walk_translation : forall tb t q e r c p x y src a,
+  get_cds_seq_exon t q e r = Ok c -> 0 <= rs r <= re r -> s_start q <= rs r -> re r - s_start q + 1 <= s_len q ->
+  rs r <= p <= re r -> annotate tb c (mkVar p [x] [y]) src = Ok a ->
+  let W := walk_segment c r in
+  let o := zlen (c_prefix_pos c) + (p - rs r) in
+  let codon_pos := py_slice (o - o mod 3) (o - o mod 3 + 3) W in
+  zlen codon_pos = 3 /\ znth (o mod 3) codon_pos = Some p /\ a_offset a = o mod 3 /\
+  seq_get_at q codon_pos = Ok (a_codon_ref a) /\
+  translate tb (a_codon_ref a) = Ok (a_aa_ref a) /\
+  translate tb (zfirstn (o mod 3) (a_codon_ref a) ++ [y] ++ zskipn (o mod 3 + 1) (a_codon_ref a)) = Ok (a_aa_alt a).
+Proof. exact annot_is_walk_translation. Qed.
 
 (* the extension lengths put the region in the annotated frame (C03's frame characterisation) *)
 Theorem C04_extension_lengths_in_frame : forall s e r b a,
@@ -70,6 +93,8 @@ Proof. vm_compute. auto. Qed.
 Print Assumptions C04_annot_snv_correct.
 Print Assumptions C04_annot_codon_correct.
 Print Assumptions C04_ext_positions_are_codon_walk.
+Print Assumptions C04_ext_is_walk_bases.
+Print Assumptions C04_annot_is_walk_translation.
 Print Assumptions C04_extension_lengths_in_frame.
 Print Assumptions C04_mut_type_rule.
 Print Assumptions C04_noncoding_rows_unannotated.
